@@ -19,7 +19,7 @@ from . import render as R
 
 EXACT = {"lexical", "unknownCommand", "extNotLoaded", "tagNotTaken", "surplusArg",
          "testAsCommand", "nonTestAsTest"}
-PROPS = ("C01", "C02", "C03", "C07", "C18")
+PROPS = ("C01", "C02", "C03", "C04", "C07", "C18")
 
 _ctx = {}
 
@@ -106,8 +106,16 @@ def judge(tokens, outs, layout, suffix, p, nrunning):
     """render + parse + judge_obs"""
     from . import sieve_impl as I
     data, spans = R.render(tokens, layout, suffix)
-    o = I.run_parse(p, data)
+    o = I.run_parse(p, data, rt=_ctx.get("roundtrip", False))
     failed = judge_obs(o, data, spans, len(tokens), outs)
+    if _ctx.get("named") and o["verdict"] is True:
+        ref = [q for q in outs if not q[0]][0]
+        if ref[1] == "acc" and not ref[5]:
+            from . import c_custom
+            want = c_custom.named_expectation(_ctx["worker_setup"][1], ref[6])
+            have = I.named_args(p.result, _ctx["named"])
+            if json.loads(json.dumps(want)) != json.loads(json.dumps(have)):
+                failed["C20"] = "arguments not recorded under the defined names: %r, definition says %r" % (have, want)
     return failed, o, data, spans
 
 
@@ -169,6 +177,9 @@ def judge_obs(o, data, spans, ntok, outs, lexnote=(), raw=False):
                     res["C18"] = "%s: want %r got %r" % (why, want, ep)
             elif (ep[0], ep[1]) < (want[0], want[1]):
                 res["C18"] = "%s: reported %r before first invalid token at %r" % (why, ep, want)
+    # ---- C04: print/parse round trip of what was accepted
+    if o.get("rt") and o["rt"].get("problem") and not irr and v == "acc":
+        res["C04"] = o["rt"]["problem"] + " | " + o["rt"].get("text", "")[-120:]
     failed = {k: d for k, d in res.items() if d}
     if lexnote:          # outside the exercised lexical alphabet: only totality is judged
         failed = {k: d for k, d in failed.items() if k == "C02"}
@@ -195,6 +206,9 @@ def init_worker(ctx):
     global _ctx
     _ctx = ctx
     from . import sieve_impl as I
+    if ctx.get("worker_setup"):
+        fn, arg = ctx["worker_setup"]
+        fn(arg)
     _ctx["parser"] = I.new_parser()
 
 
@@ -257,16 +271,18 @@ def mc_defs(sl, maxlen):
     cfg = ("SPECIFICATION Spec\nCONSTANTS\n Vocab <- MCVocab\n Prelude <- MCPrelude\n Custom <- MCCustom\n"
            " MaxLen = %d\n EnabledDevs = {%s}\n"
            "INVARIANT Emit\nINVARIANT OneRefPath\nINVARIANT GatedInv\nINVARIANT RejectSticksInv\n"
-           "INVARIANT OneTokenPerStep\nPROPERTY Progress\nCHECK_DEADLOCK FALSE\n"
+           "INVARIANT OneTokenPerStep\nINVARIANT RoundTrip\nPROPERTY Progress\nCHECK_DEADLOCK FALSE\n"
            % (maxlen, ", ".join('"%s"' % d for d in sl.get("devs", []))))
     return defs, cfg
 
 
-def run_slice(sl, maxlen, layouts, nlay, nsuf, suffixes, nproc=14, tlc_workers=8, chunk=400):
+def run_slice(sl, maxlen, layouts, nlay, nsuf, suffixes, nproc=14, tlc_workers=8, chunk=400, roundtrip=False,
+              worker_setup=None, named=None):
     """-> (tlc result, counters, records)"""
     from .tlc import run_tlc
     ctx = {"vocab": [tuple(t) for t in sl["vocab"]], "prelude": [tuple(t) for t in sl["prelude"]],
-           "layouts": layouts, "nlay": nlay, "nsuf": nsuf, "suffixes": suffixes}
+           "layouts": layouts, "nlay": nlay, "nsuf": nsuf, "suffixes": suffixes, "roundtrip": roundtrip,
+           "worker_setup": worker_setup, "named": named}
     pool = mp.Pool(nproc, initializer=init_worker, initargs=(ctx,))
     pending = []
     buf = []
